@@ -174,6 +174,9 @@ func (changes *Changes) Copy(dest string) error {
 		if err := internal.CheckFilename(file.Filename); err != nil {
 			return err
 		}
+		if file.Filename == filepath.Base(changes.Filename) {
+			return fmt.Errorf(".changes lists itself as one of its files")
+		}
 	}
 
 	if file, err := os.Stat(dest); err == nil && !file.IsDir() {
@@ -209,6 +212,9 @@ func (changes *Changes) Move(dest string) error {
 		if err := internal.CheckFilename(file.Filename); err != nil {
 			return err
 		}
+		if file.Filename == filepath.Base(changes.Filename) {
+			return fmt.Errorf(".changes lists itself as one of its files")
+		}
 	}
 
 	if file, err := os.Stat(dest); err == nil && !file.IsDir() {
@@ -239,6 +245,9 @@ func (changes *Changes) Remove() error {
 	for _, file := range changes.Files {
 		if err := internal.CheckFilename(file.Filename); err != nil {
 			return err
+		}
+		if file.Filename == filepath.Base(changes.Filename) {
+			return fmt.Errorf(".changes lists itself as one of its files")
 		}
 	}
 
